@@ -137,7 +137,16 @@ class Routing:
         received_now = []
         while self.n_recv < len(log.receives):
             t, did, part, ct, ser, lvs, val = log.receives[self.n_recv]
+            views = getattr(log, 'receive_views', None)
+            v = views[self.n_recv] if isinstance(views, list) and self.n_recv < len(views) else None
             self.n_recv += 1
+            if v and 'hist_last_is_dev' in v:
+                # what the receive callback could read: the part's history already ends with the receiving device
+                if not v['hist_last_is_dev']:
+                    ctx.report('history', f'inside the receive callback of {did} at {t} the routing history of '
+                               f'{part.name} ended with {v.get("hist_names")} - the receiving device was not in it yet')
+                    return
+                ctx.count('histories_read_inside_a_receive_callback')
             received_now.append((did, part))
             if did in self.sink_order:
                 self.sink_order[did].append(part)
